@@ -13,8 +13,8 @@
         except (ClientConnectionError, APIServerError, TimeoutError, APIForbiddenError,
                 APITooManyRequestsError) as e:
             if 429: retry_after := header "Retry-After" (truthy) ▸ _parse_retry_after(.)
-                               | details.retryAfterSeconds (truthy) ▸ int(.) | None
-                    -- _parse_retry_after: int(float(v)) | HTTP-date ▸ max(0, ceil(when - now)) | None
+                               | details.retryAfterSeconds (truthy) ▸ ceil(float(.)) | None
+                    -- _parse_retry_after: ceil(float(v)) | HTTP-date ▸ max(0, ceil(when - now)) | None
                     if retry_after is not None and backoff is not None:
                         if enforce_retry_after or retry_after > backoff: backoff = retry_after
             if SSL-marker in str(e): raise APISessionClosed
@@ -71,10 +71,9 @@ inductive Hdr where
   | secs (x : Int)          -- delay-seconds (anything `float()` parses to a finite number)
   | date (delta : Int)      -- an HTTP-date; `delta = when - now` at the moment the handler runs
   | garbage                 -- neither: parsed to None — and the details are NOT consulted
-  | otherCase (x : Int)     -- delay-seconds sent under another spelling (`retry-after`, as HTTP/2 and
-                            -- proxies do): `errors.check_response` stores `dict(response.headers)`, a
-                            -- case-SENSITIVE dict, and `api.request` looks up "Retry-After": not found
-                            -- (finding F4) — treated exactly like an absent header
+  | otherCase (x : Int)     -- delay-seconds sent under another spelling of the name (`retry-after`, as
+                            -- HTTP/2 and proxies do): found by the case-insensitive lookup (F4, fixed in
+                            -- aac39f2) and handled exactly like `secs`
   | overflow                -- `float()` gives ±inf ("inf", "1e999"): OverflowError is caught (F2, fixed in
                             -- ae1ab5d), the date parse fails too: None, like garbage
   deriving DecidableEq, Repr, Inhabited
@@ -103,33 +102,31 @@ structure Att where
 
 def tickPerSec : Int := 1024
 
-/-- `int(x)` on a value given in ticks: whole seconds towards zero, back in ticks. -/
-def truncSec (x : Int) : Int :=
-  if 0 ≤ x then (x / tickPerSec) * tickPerSec else -(((-x) / tickPerSec) * tickPerSec)
-
 /-- `math.ceil(x)` on a value given in ticks: whole seconds upwards, back in ticks. -/
 def ceilSec (x : Int) : Int := -(((-x) / tickPerSec) * tickPerSec)
 
 /-- `details.retryAfterSeconds` (the old style): truthiness of the raw value (0 counts as absent),
-    then `int(..)`; details exist only when the body was a `Status` JSON. -/
+    then `math.ceil(float(..))` (F5, fixed in e640e5e); details exist only when the body was a
+    `Status` JSON. -/
 def detailsRA (r : Resp) : Option Int :=
   if r.payload = .statusJson then
     match r.detRA with
-    | some d => if d ≠ 0 then some (truncSec d) else none
+    | some d => if d ≠ 0 then some (ceilSec d) else none
     | none => none
   else none
 
 /-- The `retry_after` of a 429: the header first (any non-empty string is truthy, "0" included):
-    delay-seconds truncated, an HTTP-date as `max(0, ceil(when - now))`, anything else None;
+    delay-seconds rounded up to whole seconds (under any spelling of the name), an HTTP-date as `max(0, ceil(when - now))`, anything else None;
     only without a header `details.retryAfterSeconds` (truthy, so 0 counts as absent; details exist
     only when the body was a `Status` JSON). -/
 def retryAfter (r : Resp) : Option Int :=
   match r.hdr with
-  | .secs h => some (truncSec h)
+  | .secs h => some (ceilSec h)
+  | .otherCase h => some (ceilSec h)
   | .date d => some (if ceilSec d < 0 then 0 else ceilSec d)
   | .garbage => none
   | .overflow => none
-  | .absent | .otherCase _ => detailsRA r
+  | .absent => detailsRA r
 
 /-- What the SERVER asked for (the specification side; never used by `run`): the delay-seconds
     as sent (fractions included, under any spelling of the header name), the time to the HTTP-date,
